@@ -159,6 +159,11 @@ func c01Jobs(tier string) []string {
 	add(EnumWorlds([]string{"Wdeep"}, 0, 0), "s1c", "plainK8")
 	add(EnumWorlds([]string{"Wfan"}, 0, 0), "e0p", "plainK6")
 	add(EnumWorlds([]string{"Wfan"}, 0, 0), "s1c", "plainK5")
+	// null entries need a nullable list to show: paired explicitly in every tier
+	for _, w := range []string{"W0+root-nullable-list+data-null-entries", "W0+union-list+data-null-entries", "W0+entity-list-nullable+data-null-entries",
+		"W0+interface-value+data-null-entries", "W0+ts-interface-chain+data-null-entries", "W0+root-nullable-list+data-null-refs"} {
+		jobs = append(jobs, w+"|e0p|plainK4", w+"|s1c|plainK3")
+	}
 	if tier == "quick" {
 		add(EnumWorlds(bases, 0, 0), "e0p", "plainK5")
 		add(EnumWorlds(bases, 0, 0), "e0p", "decK4")
